@@ -320,6 +320,9 @@ func c10Dev(c *core.Ctx) {
 		}
 	}
 	bound := 1
+	if c.Thorough() {
+		bound = 2
+	}
 	Cases(c, gen, func(c *core.Ctx, cs resolveCase) {
 		id := scen.NthPerm(len(cs.Pop), 0)
 		if c.ReplayCase != nil {
